@@ -163,14 +163,24 @@ impl C05 {
             _ => 3,
         };
         let occ = Occ::new(&b, k, &alphabet);
+        let big = n > 100_000;
         let srate = match rng.below(4) {
+            _ if big => rng.range(2, 33), // a walk costs O(sampling rate) per reported position
             0 => 1,
             1 => rng.range(1, n),
             _ => rng.range(2, 9),
         };
         let maxlen = ctx.by_tier(8, 40, 40).min(n + 2);
         let npat = ctx.by_tier(4, 12, 24);
-        let pats = make_patterns(rng, &text, sentinel, &alpha_syms, npat, maxlen);
+        let mut pats = make_patterns(rng, &text, sentinel, &alpha_syms, npat, maxlen);
+        if big {
+            // keep the number of reported positions affordable: no patterns with tens of thousands of occurrences
+            pats.retain(|p| p.len() >= 4);
+            let st = rng.usize(n - 60);
+            if !text[st..st + 12].contains(&sentinel) {
+                pats.push(text[st..st + 12].to_vec());
+            }
+        }
         if pats.is_empty() {
             ctx.count("texts_without_pattern_alphabet", 1);
             return;
@@ -350,11 +360,12 @@ impl Monitor for C05 {
                     ("directed:300-sequences", t)
                 }
                 7 if !ctx.tiny() => {
-                    // positions, ranks and intervals beyond 2^16 (three sequences, 150 000 symbols)
-                    let mut t = Vec::with_capacity(150_003);
+                    // positions, ranks and intervals beyond 2^16, and more than 2^16 distinct LMS substrings during construction
+                    // (three sequences, 400 000 symbols over a 40-letter alphabet)
+                    let mut t = Vec::with_capacity(400_003);
                     for part in 0..3 {
-                        let l = [70_000usize, 50_000, 30_000][part];
-                        t.extend((0..l).map(|_| *rng.pick(b"ACGT")));
+                        let l = [250_000usize, 100_000, 50_000][part];
+                        t.extend((0..l).map(|_| *rng.pick(b"ACDEFGHIKLMNPQRSTVWYacdefghiklmnpqrstvwy")));
                         t.push(b'$');
                     }
                     ctx.count("texts_longer_than_65536", 1);
